@@ -740,3 +740,6 @@ func (c *Cluster) scan() {
 
 // PubOf returns the public key bytes of key i.
 func PubOf(i int) []byte { return keys.FromPublicKey(&Key(i).PublicKey) }
+
+// Custom runs f as one (guarded, traced) step.
+func (c *Cluster) Custom(name string, f func() error) error { return c.guard(name, f) }
